@@ -31,3 +31,7 @@ pub mod syntax {
 pub mod disk_store {
     pub use crate::disk_store::*;
 }
+
+/// Callback registry for call-site hooks (fs effects, storage state-machine events).
+#[path = "verif_hooks.rs"]
+pub mod hooks;
